@@ -275,6 +275,10 @@ Entries(c) == LET ms == HookMsgs(cw[c].k) IN
 GenOf(c, h) == [j \in 1..Len(HookKinds[h]) |-> [w |-> cw[c].w, d |-> HookKinds[h][j]]]
 Concerned(c) == {h \in Hooks : HookKey[h] = cw[c].k}
 
+\* Hook.Signal / Hook.Close take the hook's mutex.  The manager holds it whenever it is not inside proc or
+\* cond.Wait - in particular during its 500 ms retry sleep (the deferred re-lock runs before time.Sleep): a write
+\* that concerns a hook whose endpoint is failing waits, under the server's write lock, until that sleep is over
+MutexFree(hs) == \A h \in hs : hpc[h][inc[h]] # "sleep"
 Signal(hs) == sig' = [h \in Hooks |-> [n \in Incs |-> IF h \in hs /\ n = inc[h] THEN sig[h][n] + 1 ELSE sig[h][n]]]
 \* cond.Broadcast wakes a manager that is inside cond.Wait
 Woken(hs)  == hpc' = [h \in Hooks |-> [n \in Incs |-> IF h \in hs /\ n = inc[h] /\ hpc[h][n] = "wait" THEN "top" ELSE hpc[h][n]]]
@@ -290,14 +294,14 @@ CQueue(c) ==
   /\ UNCHANGED <<gvars, ci, cw, pend, snap, cur, mvars, evars, hdeliv, hexp, svars, lvars, kvars>> /\ NoLog
 
 CSignal(c) ==
-  /\ cpc[c] = "signal"
+  /\ cpc[c] = "signal" /\ MutexFree(Concerned(c))
   /\ Signal(Concerned(c)) /\ Woken(Concerned(c))
   /\ cpc' = [cpc EXCEPT ![c] = "live"]
   /\ UNCHANGED <<gvars, ci, cw, pend, snap, cur, qvars, seen, batch, sent, try, inc, evars, ovars, svars, lvars, kvars>> /\ NoLog
 
 \* Variant "signal_before_commit": the hooks are signalled before the transaction commits
 CSignalEarly(c) ==
-  /\ Variant = "signal_before_commit" /\ cpc[c] = "queue"
+  /\ Variant = "signal_before_commit" /\ cpc[c] = "queue" /\ MutexFree(Concerned(c))
   /\ Signal(Concerned(c)) /\ Woken(Concerned(c))
   /\ cpc' = [cpc EXCEPT ![c] = "queue2"]
   /\ UNCHANGED <<gvars, ci, cw, pend, snap, cur, qvars, seen, batch, sent, try, inc, evars, ovars, svars, lvars, kvars>> /\ NoLog
@@ -417,7 +421,7 @@ Flip(e) ==
 
 \* SETHOOK with an identical definition: "signal just for good measure"
 Poke(h) ==
-  /\ pokes < MaxPokes /\ wlock = 0
+  /\ pokes < MaxPokes /\ wlock = 0 /\ MutexFree({h})
   /\ pokes' = pokes + 1
   /\ Signal({h}) /\ Woken({h})
   /\ Log([a |-> "poke", h |-> h])
@@ -426,7 +430,7 @@ Poke(h) ==
 \* SETHOOK with a different definition (D14): the old manager is closed - it finishes what it is doing -
 \* and a new manager is opened at once
 Replace(h) ==
-  /\ inc[h] < MaxReplace /\ wlock = 0
+  /\ inc[h] < MaxReplace /\ wlock = 0 /\ MutexFree({h})
   /\ inc' = [inc EXCEPT ![h] = @ + 1]
   /\ hpc' = [hpc EXCEPT ![h][inc[h] + 1] = "top"]
   /\ Log([a |-> "replace", h |-> h])
